@@ -105,6 +105,11 @@ Theorem C40_append_accounting : forall relab bsz nbq ext n0 ops,
   nextid s = Z.of_nat (length (fed s)) + n_old s + n_dropped s + n_unint s.
 Proof. exact append_accounting. Qed.
 
+(* Every Store call carries between 1 and MaxSamplesPerSend samples, unconditionally. *)
+Theorem C40_batch_bound : forall relab bsz nbq ext, (0 < bsz)%nat -> forall n0 ops,
+  batches_ok bsz (log (run relab bsz nbq ext false n0 ops)) = true.
+Proof. exact batch_bound. Qed.
+
 (* Non-vacuity: two shards, batches of two, external label 4=7, relabelling drops series with label
    5; a recoverable failure retried in place, a sample pending across a reshard to three shards,
    a too-old sample, a dropped series, an unknown series; the run ends quiescent and lossless. *)
